@@ -10,7 +10,30 @@ from guppylang import guppy
 from guppylang.std.builtins import array, owned, comptime, frozenarray
 from guppylang.std.quantum import qubit, discard
 
-{exp}T = guppy.type_var("T")
+{exp}import math as py_mod
+
+
+class PyCls:
+    attr = 1
+
+
+def py_fun(a):
+    return a
+
+
+py_int = 3
+py_none = None
+py_list = [1, 2]
+py_str = "s"
+py_float = 1.5
+py_tuple = (1, 2)
+py_dict = {{}}
+py_lambda = lambda a: a  # noqa: E731
+py_obj = PyCls()
+py_type = int
+py_exc = ValueError("v")
+
+T = guppy.type_var("T")
 n = guppy.nat_var("n")
 
 
@@ -37,10 +60,12 @@ def takes_tuple(xs: tuple[T, T]) -> None: ...
 
 # --- main ---
 @guppy
-def main(x: int, f: float, b: bool, xs: array[int, 2] @ owned, t: tuple[int, float], q: qubit @ owned) -> None:
+def main({sig}:
 {body}
-    discard(q)
-'''
+{tail}'''
+
+DEFAULT_SIG = "x: int, f: float, b: bool, xs: array[int, 2] @ owned, t: tuple[int, float], q: qubit @ owned) -> None"
+
 
 DUNDER_CALLS = ["{x}.__add__()", "{x}.__radd__()", "{x}.__rpow__(1, 2, 3)", "{x}.__neg__(1)", "{x}.__getitem__()",
                 "{x}.__len__(1)", "{x}.__iter__(1)", "{x}.__bool__({x})", "{x}.__eq__()", "{x}.__lt__(1, 2)",
@@ -69,8 +94,8 @@ def container(kind, n):
     raise AssertionError(kind)
 
 
-def programs():
-    """[{"name", "src"}] — deterministic."""
+def programs(full=False):
+    """[{"name", "src"}] — deterministic.  `full` (thorough tier) adds the secondary usage shapes of family 9."""
     bodies = []
 
     def add(name, *lines, exp=False):
@@ -157,10 +182,55 @@ def programs():
                 add(f"layout:ifexp:{hi}:{bi}:{ind}", f"r = (x if\n{pad}{bad}\n{pad}else 2)")
                 add(f"layout:call:{hi}:{bi}:{ind}", f"r = takes_tuple(\n{pad}{bad},\n{pad}x)")
                 add(f"layout:while:{hi}:{bi}:{ind}", f"while (x <\n{pad}{bad}\n{pad}< 3):\n    pass")
+    # 9. name resolution: every name Python resolves at the definition site but Guppy may not define — all of
+    #    dir(builtins) (computed now), module dunders, and names bound in the defining frame to non-Guppy Python
+    #    objects of various kinds — in every usage shape.  Expected: success or a located Guppy error.
+    import builtins
+    import keyword
+    names = [n for n in sorted(dir(builtins)) if n.isidentifier() and not keyword.iskeyword(n)]
+    names += ["None", "True", "False", "__file__", "__path__", "__cached__", "__annotations__", "__dict__", "__class__",
+              "py_mod", "PyCls", "py_fun", "py_int", "py_none", "py_list", "py_str", "py_float", "py_tuple", "py_dict",
+              "py_lambda", "py_obj", "py_type", "py_exc", "guppylang", "guppy", "T", "n", "unit", "takes_list", "main",
+              "DEFAULT_SIG_IS_NOT_A_NAME", "qubit", "array", "owned", "comptime"]
+    sigs = []
+    for X in dict.fromkeys(names):
+        add(f"name:{X}:value", f"r = {X}")
+        if full:
+            add(f"name:{X}:return", f"r = x", f"if b:\n    r = {X}")
+        add(f"name:{X}:call0", f"r = {X}()")
+        add(f"name:{X}:call1", f"r = {X}(x)")
+        add(f"name:{X}:cond", f"if {X}:\n    pass")
+        if full:
+            add(f"name:{X}:while", f"while {X}:\n    pass")
+        add(f"name:{X}:local_annotation", f"y: {X} = x")
+        add(f"name:{X}:nested", f"def g(k: int) -> int:\n    r = {X}\n    return k", "u = g(1)")
+        if full:
+            add(f"name:{X}:nested_call", f"def g(k: int) -> int:\n    r = {X}(k)\n    return k", "u = g(1)")
+        add(f"name:{X}:nested_annotation", f"def g(k: {X}) -> {X}:\n    return k")
+        add(f"name:{X}:attribute", f"r = {X}.y")
+        if full:
+            add(f"name:{X}:method", f"r = {X}.y(x)")
+        add(f"name:{X}:subscript_type", f"r = {X}[int]")
+        if full:
+            add(f"name:{X}:subscript_int", f"r = {X}[0]")
+        if full:
+            add(f"name:{X}:arg", f"r = takes_tuple(({X}, {X}))")
+        if full:
+            add(f"name:{X}:binop", f"r = {X} + x")
+        if full:
+            add(f"name:{X}:for", f"for i in {X}:\n    pass")
+        if full:
+            add(f"name:{X}:comptime", f"r = comptime({X})")
+        if full and X not in ("None", "True", "False", "__debug__"):
+            add(f"name:{X}:assign_then_use", f"{X} = x", f"r = {X} + 1")
+        sigs.append((f"name:{X}:param_annotation", f"a: {X}) -> None", "    pass"))
+        sigs.append((f"name:{X}:return_annotation", f"a: int) -> {X}", "    return a"))
     out = []
     seen = set()
-    for name, body, exp in bodies:
-        src = PRELUDE.format(exp="guppylang.enable_experimental_features()\n" if exp else "", body=body)
+    items = [(name, DEFAULT_SIG, body, "    discard(q)\n", exp) for name, body, exp in bodies]
+    items += [(name, sig, body, "", False) for name, sig, body in sigs]
+    for name, sig, body, tail, exp in items:
+        src = PRELUDE.format(exp="guppylang.enable_experimental_features()\n" if exp else "", body=body, sig=sig, tail=tail)
         if src in seen:
             continue
         seen.add(src)
@@ -173,5 +243,4 @@ def programs():
 
 
 if __name__ == "__main__":
-    ps = programs()
-    print(len(ps))
+    print(len(programs()), len(programs(True)))
